@@ -306,6 +306,10 @@ def shrink_history(case):
                 c = copy.deepcopy(case)
                 c["prog"]["funcs"][fn]["body"][i]["join"] = False
                 yield c
+            if it.get("pspell"):
+                c = copy.deepcopy(case)
+                c["prog"]["funcs"][fn]["body"][i]["pspell"] = None
+                yield c
             if it.get("pathform", "lit") != "lit":
                 c = copy.deepcopy(case)
                 c["prog"]["funcs"][fn]["body"][i]["pathform"] = "lit"
@@ -360,6 +364,8 @@ def feature_tags(case):
                 t.add("wrap:" + it["wrap"])
             if it.get("join"):
                 t.add("join")
+            if it.get("pspell"):
+                t.add("pathspell:" + it["t"])
             if it["t"] == "eval" and it.get("spell", "dds") != "dds":
                 t.add("evalspell:" + it["spell"])
     if prog.get("rec_builtin"):
